@@ -21,7 +21,7 @@ PLANS = {
                 quick=[("lag", 300, ""), ("close", 100, ""), ("stall", 40, ""), ("ovfstall", 2, "")],
                 thorough=[("lag", 5000, ""), ("close", 2000, ""), ("stall", 600, ""), ("ovfstall", 12, "")]),
     "C06": dict(engine=INO, mc=["MC_Sched"],
-                quick=[("close", 300, ""), ("lag", 100, ""), ("ovfstall", 2, "")],
+                quick=[("close", 300, ""), ("lag", 100, ""), ("ovfstall", 1, "mode=close")],
                 thorough=[("close", 5000, ""), ("lag", 1500, ""), ("ovfstall", 12, "")]),
     "C08": dict(engine=INO, mc=["MC_Events"],
                 quick=[("spell", 240, ""), ("burst", 24, "ks=17+240+700"), ("rand", 150, "")],
@@ -39,7 +39,7 @@ PLANS = {
                 quick=[("wsexh", 700, "k=3"), ("cycle", 6, "n=150"), ("wsrand", 150, ""), ("repoint", 60, ""), ("endwatch", 80, "")],
                 thorough=[("wsexh", 2744, "k=3"), ("wsexh", 12000, "k=4"), ("cycle", 50, "n=1000"), ("wsrand", 5000, ""), ("repoint", 600, ""), ("endwatch", 2000, "")]),
     "C13": dict(engine=INO, mc=["MC_Sched"],
-                quick=[("close", 200, ""), ("newclose", 3, "n=300"), ("lag", 60, ""), ("ovfstall", 1, "")],
+                quick=[("close", 200, ""), ("newclose", 3, "n=300"), ("lag", 60, ""), ("ovfstall", 1, "mode=close")],
                 thorough=[("close", 5000, ""), ("newclose", 10, "n=1000"), ("lag", 1500, "")]),
     "C14": dict(engine=INO, mc=["MC_Multi"],
                 quick=[("multi", 100, ""), ("absorb", 40, "")],
